@@ -134,6 +134,8 @@ type Obs struct {
 	// PanVals: the values raised by BehPanic hooks, by hook name (B0, ACT1, A2)
 	PanVals map[string]interface{}
 	Ran     int
+	// Values (built-in mode): what EVERY option / argument variable holds inside the Action, by first name, per node id
+	Values map[int]map[string][]string
 	// Final: the recorders' content when Run ended (also on rejection / exit), per node id; recording mode only
 	Final map[int]Binding
 }
@@ -441,16 +443,23 @@ func (o *Obs) snapshot(a *App, all map[int]*recs) {
 		b := Binding{Opts: map[*OptDecl][]string{}, Args: map[*ArgDecl][]string{}}
 		sb := map[string]bool{}
 		if a.Builtin {
+			vals := map[string][]string{}
 			for od, get := range rr.bo {
+				vals["opt:"+od.Names[0]] = get()
 				if *rr.sbo[od] {
 					b.Opts[od] = get()
 				}
 			}
 			for ad, get := range rr.ba {
+				vals["arg:"+ad.Name] = get()
 				if *rr.sba[ad] {
 					b.Args[ad] = get()
 				}
 			}
+			if o.Values == nil {
+				o.Values = map[int]map[string][]string{}
+			}
+			o.Values[tid] = vals
 		} else {
 			for od, rc := range rr.o {
 				if rc.Clears > 0 && len(rc.Vals) > 0 {
